@@ -1,7 +1,7 @@
 (* C08 - segmentation is lossless and every segment fits a single short message. *)
 From Coq Require Import ZArith List Bool.
 Import ListNotations.
-Require Import AV.Generated.GsmTables AV.Generated.ExnOrder AV.Generated.SmppConsts
+Require Import AV.Generated.GsmTables AV.Generated.ExnOrder AV.Generated.SmppConsts AV.Generated.Handled
                AV.Model.Base AV.Model.Codec AV.Model.Split AV.Spec.Receiver
                AV.Proofs.ChunkProofs AV.Proofs.SplitProofs.
 Open Scope Z_scope.
@@ -55,6 +55,16 @@ Proof. exact ucs2_parts. Qed.
 Theorem C08_limits : MAX_SM_SIZE = 254 /\ MAX_SEPTET_SIZE = 160 /\ MAX_OCTET_SIZE = 140
                      /\ IE_ID_8BIT = 0 /\ IE_ID_16BIT = 8.
 Proof. exact const_sizes. Qed.
+
+(* "All segments of one message carry that message's addressing and options": each segment the sender emits is obtained from
+   smpp_message.clone() and only its text and its list of optional parameters are touched afterwards; clone() hands every
+   constructor field of the SubmitSm dataclass (own and inherited; 21 of them, validity_period among them) to the copy. Both facts
+   are read off esme.py / protocol.py by the translator on every run (Generated/Handled.v). *)
+Theorem C08_segments_are_full_copies :
+  sender_segments_are_clones = true /\ submit_sm_clone_missing_fields = []
+  /\ In [118; 97; 108; 105; 100; 105; 116; 121; 95; 112; 101; 114; 105; 111; 100] submit_sm_fields
+  /\ (21 <= length submit_sm_fields)%nat.
+Proof. split; [reflexivity|]. split; [reflexivity|]. split; [vm_compute; tauto|vm_compute; repeat constructor]. Qed.
 
 (* non-vacuity: an extension character on the 153-septet boundary of a UDH-segmented text, and a
    surrogate pair on the 127-unit boundary of a SAR-segmented text *)
